@@ -262,7 +262,7 @@ def _own_calls(facts):
                 cal = facts.fns.get(t[1].get("id"))
                 if cal is not None and norm_name(cal.get("self_adt") or "").split("::")[-1] == adt:
                     c[cal["item"]] += 1
-        out[(adt, fn["item"], fn.get("trait") or "")] = (c, fn)
+        out[(adt, fn["item"], fn.get("trait") or "")] = (c, fn, len(body.loops()))
     return out
 
 
@@ -278,12 +278,14 @@ def run_p6(all_facts, run, prop="C18"):
     for cfg, f in sorted(all_facts.items()):
         if cfg == ref_cfg:
             continue
-        for k, (c, fn) in sorted(_own_calls(f).items()):
+        for k, (c, fn, nloops) in sorted(_own_calls(f).items()):
             if k not in ref:
                 continue
-            rc, rfn = ref[k]
+            rc, rfn, rloops = ref[k]
             if rfn["file"] == fn["file"] or set(rc) != set(c) or not c:
                 continue
+            if nloops != rloops:
+                continue      # one side unrolled / re-rolled a loop: static call-site counts are not comparable
             n += 1
             key = "%s::%s" % (k[0], k[1])
             if rc == c or any(p.fullmatch(key) for p in exc):
